@@ -38,6 +38,10 @@ def r1(run):
     bk = batch_keys(run)
     ins = bk.get(C.INSERT_FRAME)
     rem = bk.get(C.REMOVE)
+    if not rem:
+        # the removal batch lives in a function Store::remove shares with the GC
+        for r in C.removers(run.facts):
+            rem = rem or bk.get(r)
     if not ins or not rem:
         run.missing("crate|insert/remove batches", "Store::insert_frame and Store::remove must both build a batch")
         return
